@@ -407,6 +407,44 @@ def execute_random(desc, ctx):
         compare(ctx, text, mask, how, shown, ref, got)
 
 
+# ------------------------------------------------------------------ long repetitions (depth / linear-bound hazards)
+
+REPEAT_UNITS = ['/**/ ', '/* c */', '/**/', '// c\n', '//\n', '"a" ', '"a"\n', 'a ', '{', '}', '{ }', '[a]', '[a] ', '(a)', '\\\n', '"\\n"',
+                '\n', '\r\n', '\r', ' ', '\t', '=', ',', ':', '+', '#a ', '"', 'a{', '\ufeff', '/*', '*/', '/ ', '* ']
+
+
+def repeat_cases(tier: str):
+    from hypothesis import strategies as st
+    return st.fixed_dictionaries({
+        'unit': st.one_of(st.sampled_from(REPEAT_UNITS), st.text(FULL_ALPHABET, min_size=1, max_size=5)),
+        'unit2': st.sampled_from(['', '', ' ', '\n', 'a', '"b"']),
+        'n': st.sampled_from([300, 700, 1100, 2500] if tier == 'quick' else [300, 700, 1100, 2500, 6000]),
+        'mask': st.integers(0, 127),
+        'chunk': st.sampled_from([1, 2, 7, 64, 4096]),
+    })
+
+
+def execute_repeat(desc, ctx):
+    """A short unit repeated hundreds to thousands of times: totality (only TokenSyntaxError may escape - in particular no
+    RecursionError) and the linear step bound on long inputs, for the single string and one chunked delivery."""
+    text = (desc['unit'] + desc['unit2']) * desc['n']
+    text = text[:24000]
+    mask = desc['mask']
+    opts = opts_from_mask(mask)
+    ref = counted_run(ctx, text, text, opts, mask, 'str')
+    if ref is None:
+        return
+    ntok, is_err = check_reference(ctx, text, ref, mask)
+    ctx.label('repeat:error' if is_err else 'repeat:eof')
+    if opts.get('allow_star_comments') and '/*' in text and '*/' in text:
+        ctx.label('repeat:star_comments')
+    ctx.nontrivial(len(text) >= 1000 and (ntok >= 100 or is_err or '/' in text))
+    size = desc['chunk']
+    chunks = [text[i:i + size] for i in range(0, len(text), size)]
+    got = counted_run(ctx, chunks, text, opts, mask, f'chunks-of-{size}')
+    compare(ctx, text, mask, f'chunks-of-{size}', f'<{len(chunks)} chunks of {size}>', ref, got)
+
+
 # ------------------------------------------------------------------ Keyvalues.parse: random
 
 KV_PIECES = [
@@ -592,6 +630,8 @@ SUBCHECKS = [
                   'cut:word_terminator', 'ref:error', 'ref:eof', 'ref:>=10_tokens', 'len>100',
                   'tok:STRING', 'tok:NEWLINE', 'tok:PAREN_ARGS', 'tok:DIRECTIVE', 'tok:COMMENT', 'tok:PROP_FLAG',
                   'tok:BRACK_OPEN', 'tok:PAREN_OPEN', 'tok:COLON', 'tok:PLUS', 'tok:BRACE_OPEN')),
+    Sub('repeat', execute_repeat, strategy=repeat_cases, quick=640, thorough=12000, quick_shards=16, floor=100,
+        must_hit=('repeat:star_comments', 'repeat:eof', 'repeat:error')),
     Sub('kvparse', execute_kvparse, strategy=kvparse_cases, quick=10000, thorough=200000, quick_shards=16, floor=1000,
         must_hit=('parse:ok', 'parse:error', 'parse:nested_block', 'parse:>=3_children', 'opt:single_block',
                   'opt:single_line', 'opt:flags', 'cut:crlf', 'cut:escape', 'cut:word_terminator')),
